@@ -202,6 +202,8 @@ class World:
         if live:
             ops.append(('restore', live[0], 'next'))
             ops.append(('restore', live[0], 'hour'))
+            # a transaction copied in with the status of a packed one
+            ops.append(('restore', live[0], 'packed'))
             rs = self.model.recs(self.oid(live[0]))
             if len(rs) >= 2 and rs[-2].resolve() is not None:
                 ops.append(('restore-back', live[0]))
@@ -353,9 +355,9 @@ class World:
             o = O(op[1])
             last = m.last_tid()
             base = max(u64(last), u64(self._now_tid()))
-            tid = p64(base + (1 if op[2] == 'next' else 3600 << 32))
+            tid = p64(base + (3600 << 32 if op[2] == 'hour' else 1))
             return self.txn([('restore', o, self.rec(spec, op[1]), None)],
-                            tid=tid)
+                            tid=tid, status='p' if op[2] == 'packed' else ' ')
         if k == 'restore-back':
             o = O(op[1])
             rs = m.recs(o)
@@ -608,6 +610,17 @@ class World:
                 self.bad('step', 'vote-resolved',
                          dict(expected=resolved, got=r))
         if abort == 'vote':
+            # voted, not finished: no view may show the transaction yet
+            # (it may still be aborted - as it is now)
+            it = call(lambda: [x.tid for x in s.iterator()])
+            want = [x.tid for x in m.txns]
+            if it != want:
+                self.bad('iter', 'voted-transaction-listed',
+                         dict(expected=len(want), got=repr(it)[:200]))
+            lt = call(s.lastTransaction)
+            if lt != (want[-1] if want else Z64):
+                self.bad('iter', 'voted-transaction-is-last',
+                         dict(got=repr(lt)))
             r = call(s.tpc_abort, t)
             if isinstance(r, Exc):
                 self.bad('step', 'tpc_abort:%s' % r.name, dict(got=repr(r)))
